@@ -146,6 +146,10 @@ var stockFiles = map[string]fileSpec{
 	"/u/pre.fasta":   {Prefix: preamble, Parts: []string{"NC_001422_part.fasta"}, Text: ">second\nACGTTGCA\n"},
 	"/u/big.gb":      {Parts: []string{"NC_001422.gb", "NC_001422.gb", "NC_001422.gb"}},
 	"/u/big.fasta":   {Parts: []string{"NC_001422.fasta", "NC_001422.fasta", "NC_001422.fasta", "NC_001422.fasta", "NC_001422.fasta", "NC_001422.fasta", "NC_001422.fasta", "NC_001422.fasta", "NC_001422.fasta", "NC_001422.fasta", "NC_001422.fasta", "NC_001422.fasta", "NC_001422.fasta"}},
+	// records of very different sizes in one stream: a few residues, then 43 000 (more than any buffer between a command and its output), then a few again
+	"/u/sizes.fasta": {Prefix: ">small one\nGATTACAGATTACAGATTACA\n", Parts: []string{"NC_001422.fasta", "NC_001422.fasta", "NC_001422.fasta", "NC_001422.fasta", "NC_001422.fasta", "NC_001422.fasta", "NC_001422.fasta", "NC_001422.fasta"},
+		Text: ">small two\nACGTACGT\n", Edits: []editSpec{{Op: "merge-records", At: 2, Len: 7}}},
+	"/u/long.fasta": {Parts: []string{"NC_001422.fasta", "NC_001422.fasta", "NC_001422.fasta", "NC_001422.fasta", "NC_001422.fasta", "NC_001422.fasta", "NC_001422.fasta"}, Edits: []editSpec{{Op: "merge-records", At: 1, Len: 6}}},
 	"/u/guest.fasta": {Text: ">guest\nGATTACAGATTACA\n"},
 	"/u/guest.gb":    {Parts: []string{"NC_001422_part.gb"}},
 	"/u/guest2.gb":   {Parts: []string{"NC_001422_part.gb", "NC_001422_part.gb"}},
@@ -163,7 +167,7 @@ var stockFiles = map[string]fileSpec{
 var primaryInputs = []string{"/u/part.gb", "/u/part.gb", "/u/pbat.gb", "/u/pbat.gb", "/u/ecoli.gb", "/u/two.gb", "/u/three.gb", "/u/phix.gb",
 	"/u/part.fasta", "/u/two.fasta", "/u/phix.fasta", "/u/bad2.gb", "/u/badmid.gb", "/u/garbage.gb", "/u/empty.gb",
 	"/u/part.gb", "/u/pbat.gb", "/u/two.gb", "/u/part.fasta", "/u/two.fasta", "/u/ecoli.gb", "/u/big.gb", "/u/big.fasta",
-	"/u/pad4096.gb", "/u/pad32k.gb", "/u/pad64k.gb", "/u/pad64k1.gb", "/u/multi.gb", "/u/multi.gb"}
+	"/u/pad4096.gb", "/u/pad32k.gb", "/u/pad64k.gb", "/u/pad64k1.gb", "/u/multi.gb", "/u/multi.gb", "/u/sizes.fasta", "/u/sizes.fasta", "/u/long.fasta"}
 
 var locators = []string{"^..$", "1..10", "3", "CDS", "gene", "@^-10..^", "$-20..$", "10..1", "source", "^", "$", "CDS@^..$", "gene/gene=A",
 	"100", "1..100", "@^..^+30", "20..40@^-5..$+5", "misc_feature", "^+5..$-5", "((("}
